@@ -61,9 +61,10 @@ rfbSendCursorShape(rfbClientPtr cl)
 
     /* If there is no cursor, send update with empty cursor data. */
 
-    if ( pCursor && pCursor->width == 1 &&
+    if ( pCursor && (pCursor->width == 0 || pCursor->height == 0 ||
+	 (pCursor->width == 1 &&
 	 pCursor->height == 1 &&
-	 pCursor->mask[0] == 0 ) {
+	 pCursor->mask[0] == 0)) ) {
 	pCursor = NULL;
     }
 
